@@ -32,3 +32,73 @@ Theorem exec_op_frame : forall m um op m' q,
   lookup m' q = lookup m q.
 Proof. exact Proofs_World.exec_op_frame. Qed.
 Print Assumptions exec_op_frame.
+
+(* ===== merged from Properties_TouchRun.v ===== *)
+From PatchV Require Import Base Lines Hunk Options Parser World Driver Proofs_World Proofs_Touch Proofs_Sections
+     Proofs_CrashRun Proofs_TouchRun.
+
+(* ---------- (2) the frame ---------- *)
+(* over any history (operations with their results, replayed by Steps): every operation spares q in the tree it runs in *)
+Theorem steps_frame : forall w log w' q,
+  Steps w log w' -> log_spares w log q -> lookup (fs w') q = lookup (fs w) q.
+Proof. exact Proofs_TouchRun.steps_frame. Qed.
+Print Assumptions steps_frame.
+
+(* only the operations that succeeded matter: a failed operation leaves the tree alone *)
+Theorem steps_frame_ok : forall w log w' q,
+  Steps w log w' -> log_spares_ok w log q -> lookup (fs w') q = lookup (fs w) q.
+Proof. exact Proofs_TouchRun.steps_frame_ok. Qed.
+Print Assumptions steps_frame_ok.
+
+(* the run has such a history, it is the extension of the trace, and the frame holds for it *)
+Theorem run_frame : forall o t w,
+  exists log, Steps w log (snd (process_patch o t w)) /\
+    trace (snd (process_patch o t w)) = trace w ++ map fst log /\
+    forall q, log_spares_ok w log q -> lookup (fs (snd (process_patch o t w))) q = lookup (fs w) q.
+Proof. exact Proofs_TouchRun.run_frame. Qed.
+Print Assumptions run_frame.
+
+(* static form: T bounds the link targets of the initial tree and of the symlinks the run creates; q is not named by an
+   operation of the trace extension, and is not where a link with a target in T at a named path would lead *)
+Theorem steps_frame_static : forall T w log w' q,
+  Steps w log w' ->
+  targets_in T (fs w) ->
+  (forall t p r, In (OSymlink t p, r) log -> T t) ->
+  (forall op r, In (op, r) log -> named_spares T op q) ->
+  lookup (fs w') q = lookup (fs w) q.
+Proof. exact Proofs_TouchRun.steps_frame_static. Qed.
+Print Assumptions steps_frame_static.
+
+Theorem run_frame_static : forall T o t w q,
+  targets_in T (fs w) ->
+  (forall ext, trace (snd (process_patch o t w)) = trace w ++ ext ->
+     (forall tg p, In (OSymlink tg p) ext -> T tg) /\ (forall op, In op ext -> named_spares T op q)) ->
+  lookup (fs (snd (process_patch o t w))) q = lookup (fs w) q.
+Proof. exact Proofs_TouchRun.run_frame_static. Qed.
+Print Assumptions run_frame_static.
+
+Theorem run_frame_nolinks : forall o t w q,
+  (forall p tg, lookup (fs w) p <> Some (Sym tg)) ->
+  (forall ext, trace (snd (process_patch o t w)) = trace w ++ ext ->
+     (forall tg p, ~ In (OSymlink tg p) ext) /\ (forall op, In op ext -> ~ In q (op_paths op))) ->
+  lookup (fs (snd (process_patch o t w))) q = lookup (fs w) q.
+Proof. exact Proofs_TouchRun.run_frame_nolinks. Qed.
+Print Assumptions run_frame_nolinks.
+
+(* ---------- (1) the operations of the run ---------- *)
+Theorem loop_run_allowed : forall o f a sa wa fuel st s first w,
+  sections_done o f a sa wa st s w -> loop_post o f a sa wa w (section_loop fuel o f st s first w).
+Proof. exact Proofs_TouchRun.loop_run_allowed. Qed.
+Print Assumptions loop_run_allowed.
+
+Theorem run_ops_allowed : forall o f t w,
+  format_from_options o = Ok f ->
+  exists ext, trace (snd (process_patch o t w)) = trace w ++ ext /\ Forall (run_allowed o f ds0 (stream_of t) w) ext.
+Proof. exact Proofs_TouchRun.run_ops_allowed. Qed.
+Print Assumptions run_ops_allowed.
+
+(* ---------- the example: two sections (f, g) and the bystander h ---------- *)
+Example bystander_unchanged :
+  lookup (fs (snd (process_patch ex_o ex_t tr_w))) (bs "h") = Some (Reg (bs "bystander" ++ nlb) 384).
+Proof. exact Proofs_TouchRun.bystander_unchanged. Qed.
+Print Assumptions bystander_unchanged.
